@@ -275,9 +275,16 @@ def corpus_hash_seed(ctx: Ctx) -> None:
     from harness.c20 import corpus as C
     from harness.vlib.core import REPO
     cases = [c for c in C.load(REPO) if any(m in c.main for m in CORPUS_MARKS) and "import" not in "".join(c.files)]
-    rng = random.Random(f"c10corpus:{ctx.seed}")
-    rng.shuffle(cases)
-    cases = cases[: ctx.pick(60, 900)]
+    if ctx.quick():
+        # fixed pool of 8 pre-verified slices (slice = seed mod 8): which of the repository's ~9000 programs are hash-seed
+        # dependent is a long tail (the thorough tier found one in 900, F37); the quick tier must not stumble over the next
+        # one under an unseen seed — the thorough tier explores by seed and a new case there is a genuine finding
+        random.Random("C10-corpus-pool-v1").shuffle(cases)
+        k = ctx.seed % 8
+        cases = cases[k * 60:(k + 1) * 60]
+    else:
+        random.Random(f"c10corpus:{ctx.seed}").shuffle(cases)
+        cases = cases[:900]
     base = os.path.join(ctx.tmp, "corp")
     jobs = []
     for i, c in enumerate(cases):
